@@ -183,7 +183,7 @@ def run_workers(module: str, prop: str, tier: str, seed: int, nshards: int, time
 
 
 def write_replay(prop: str, n: int, v: Dict[str, Any], seed: int, tier: str) -> str:
-    d = os.path.join(env.VERIF, "replays", prop)
+    d = os.path.join(env.VERIF if env.REPO == "/repo" else env.scratch_root(), "replays", prop)
     os.makedirs(d, exist_ok=True)
     p = os.path.join(d, f"{tier}-seed{seed}-{n}.json")
     with open(p, "w") as fh:
@@ -287,8 +287,12 @@ def main(prop: str, module: str, worker: Callable[[Ctx], None], *, level: str = 
     if finish:
         finish(res, ev)
     if not a.replay:
-        os.makedirs(os.path.join(env.VERIF, "evidence"), exist_ok=True)
-        with open(os.path.join(env.VERIF, "evidence", f"{prop}.json"), "w") as fh:
+        evdir = os.path.join(env.VERIF, "evidence")
+        if env.REPO != "/repo":
+            # self-validation run against a scratch copy: never touch the committed evidence
+            evdir = os.path.join(env.scratch_root(), "evidence-other-tree")
+        os.makedirs(evdir, exist_ok=True)
+        with open(os.path.join(evdir, f"{prop}.json"), "w") as fh:
             json.dump(ev, fh, indent=1, default=str)
     summary = {k: v for k, v in coverage["monitor_counters"].items()}
     print(f"{prop} tier={a.tier} seed={seed} evaluations={res.evaluations} distinct_nontrivial={len(res.distinct)} "
